@@ -97,7 +97,21 @@ def exhaustive(maxlen, alphabet=ALPHABET):
             yield "".join(t)
 
 
-LEXEMES = [
+# identifiers that look like keywords with underscores, GNU alternate keywords, prefixes of literals
+KEYWORDISH = ["__inline__", "__restrict", "__volatile__", "_int", "int_", "__if", "short_", "do_", "__do__", "_Bool", "L", "u8", "U",
+              "default_", "__attribute__", "NULL", "sizeof_", "x1", "BUF_2K", "BUF_XK"]
+
+# pathological runs for backtracking regular expressions: long runs of digits, hex digits, dots, exponent letters
+def pathological():
+    out = []
+    for n in (24, 40, 64):
+        out += ["1" * n, "0" * n, "9" * n + "u", "1" * n + ";", "0x" + "f" * n, "0b" + "1" * n, "1" * n + "e", "1" * n + ".",
+                "." + "1" * n, "1." * (n // 2), "e" * n, "1" + "e" * n, "0x" + "p" * n, "1e+" + "1" * n, "x" * n, "1" * n + "x" * n,
+                "0x1" + ".f" * (n // 2), "1" + "+-" * (n // 2), "1" * n + " ", "'" + "a" * n, '"' + "\\" * n]
+    return out
+
+
+LEXEMES = KEYWORDISH + [
     "a", "ab_1", "int", "return", "NULL", "x", "0", "1", "42", "0x1F", "0b101", "017", "1.5", ".5", "1e3", "0x1p3", "10UL",
     "1.0f", "'a'", "'\\n'", "'\\x41'", "L'a'", "\"str\"", "\"a\\tb\"", "u8\"s\"", "\"a;{\"", " ", " ", "\t", "\n", "\n",
     "+", "-", "*", "/", "%", "=", "==", "!=", "<", ">", "<=", ">=", "&&", "||", "&", "|", "^", "~", "!", "<<", ">>", "<<=",
